@@ -1,3 +1,4 @@
+import Goyang.Spec.Date
 /-
 C13 (a), independent reading: which loaded module a name denotes.
 
@@ -18,29 +19,6 @@ structure Header where
   name : String
   rev : String
   deriving DecidableEq, Repr, Inhabited
-
-structure Date where
-  y : Nat
-  m : Nat
-  d : Nat
-  deriving DecidableEq, Repr
-
-def isDigit (c : Char) : Bool := '0' ≤ c ∧ c ≤ '9'
-
-/-- Value of a string of decimal digits. -/
-def digitsVal (ds : List Char) : Nat := ds.foldl (fun n c => 10 * n + (c.toNat - 48)) 0
-
-/-- A revision date `YYYY-MM-DD` (RFC 7950 `date-arg-str`): 4, 2 and 2 digits. -/
-def parseDate (s : List Char) : Option Date :=
-  match s with
-  | [y1, y2, y3, y4, '-', m1, m2, '-', d1, d2] =>
-    if [y1, y2, y3, y4, m1, m2, d1, d2].all isDigit then
-      some ⟨digitsVal [y1, y2, y3, y4], digitsVal [m1, m2], digitsVal [d1, d2]⟩
-    else none
-  | _ => none
-
-def Date.le (a b : Date) : Bool :=
-  a.y < b.y || (a.y == b.y && (a.m < b.m || (a.m == b.m && a.d ≤ b.d)))
 
 /-- The revisions the property speaks about: none, or a date. -/
 def WellFormedRev (r : String) : Prop := r = "" ∨ (parseDate r.toList).isSome
